@@ -122,6 +122,95 @@ func modeSchedFree(a args) {
 		}
 		runBarrier(a, r, i)
 	}
+	// contexts whose `up` commands wait for each other; one very wide barrier (more stages than any fixed pool)
+	nu := a.n(8, 80)
+	for i := 0; i < nu; i++ {
+		r := h.NewRand(int64(rnd.U64()), "upbarrier")
+		if !a.mine(i) {
+			continue
+		}
+		runBarrierK(a, r, 10000+i, r.Range(2, 5), true)
+	}
+	nw := a.n(1, 6)
+	for i := 0; i < nw; i++ {
+		r := h.NewRand(int64(rnd.U64()), "widebarrier")
+		if !a.mine(i) {
+			continue
+		}
+		runBarrierK(a, r, 20000+i, 40+24*(i%2), false)
+	}
+	// C01 with real processes: a dependency whose command overruns its timeout and ignores the interrupt, in a
+	// stage that tolerates failure; the dependant must not start while that command is still executing
+	nt := a.n(3, 24)
+	for i := 0; i < nt; i++ {
+		if !a.mine(i) {
+			continue
+		}
+		runTimeoutDep(a, i)
+	}
+}
+
+func runTimeoutDep(a args, idx int) {
+	dir := filepath.Join(a.Work, fmt.Sprintf("todep.%d", idx))
+	os.MkdirAll(dir, 0o755)
+	defer os.RemoveAll(dir)
+	trace := dir + "/trace"
+	shape := idx % 3
+	var script string
+	switch shape {
+	case 0: // external shell that ignores the interrupt and keeps reporting
+		script = fmt.Sprintf("trap '' INT\ni=0\nwhile [ $i -lt 40 ]; do printf 'TICK\\n' >> '%s'; sleep 0.1; i=$((i+1)); done\n", trace)
+	case 1: // a command that winds down for a moment after the interrupt
+		script = fmt.Sprintf("trap 'sleep 0.6; printf \"LATE\\n\" >> \"%s\"; exit 1' INT\nprintf 'TICK\\n' >> '%s'\nsleep 20 &\nwait\n", trace, trace)
+	default:
+		script = fmt.Sprintf("trap '' INT\nprintf 'TICK\\n' >> '%s'\nsleep 1.2\nprintf 'LATE\\n' >> '%s'\n", trace, trace)
+	}
+	os.WriteFile(dir+"/dep.sh", []byte(script), 0o755)
+	body := fmt.Sprintf("sh '%s/dep.sh'", dir)
+	dep := task.FromCommands(body)
+	dep.Name = "dep"
+	to := 250 * time.Millisecond
+	dep.Timeout = &to
+	child := task.FromCommands(fmt.Sprintf("printf 'CHILD\n' >> '%s'", trace))
+	child.Name = "child"
+	g, err := scheduler.NewExecutionGraph(
+		&scheduler.Stage{Name: "dep", Task: dep, AllowFailure: true},
+		&scheduler.Stage{Name: "child", Task: child, DependsOn: []string{"dep"}})
+	if err != nil {
+		return
+	}
+	out.Begin(fmt.Sprintf("timeout-dependency#%d shape=%d", idx, shape))
+	tr := newQuietRunner()
+	sch := scheduler.NewScheduler(tr)
+	sch.VerifSetPause(time.Millisecond)
+	done := make(chan error, 1)
+	go func() { done <- sch.Schedule(g) }()
+	select {
+	case <-done:
+	case <-time.After(60 * time.Second):
+		out.Inconclusive("C01", fmt.Sprintf("timeout-dependency pipeline #%d did not return within 60 s", idx))
+		return
+	}
+	lockedFinish(sch.Finish)
+	time.Sleep(1500 * time.Millisecond) // anything the dependency's command still writes lands after CHILD
+	toks := strings.Fields(h.ReadFile(trace))
+	out.Count("executions", 1)
+	out.Count("timeout_dependency_pipelines", 1)
+	out.Count("events", int64(len(toks)))
+	cas := map[string]interface{}{"shape": shape, "trace": toks}
+	seenChild := false
+	for _, t := range toks {
+		if t == "CHILD" {
+			seenChild = true
+		} else if seenChild {
+			out.Viol("C01", "dependant-started-while-dependency-command-still-running", fmt.Sprintf("the dependency's command wrote %s after the dependant had started (trace %v)", t, toks), cas)
+			break
+		}
+	}
+	if !seenChild {
+		out.Viol("C02", "ran-set-differs-from-model", "the dependant of a stage with allow_failure did not run after the stage's task timed out", cas)
+	}
+	out.Nontrivial("C01", fmt.Sprint("timeout-dependency", idx))
 }
 
 func runFree(a args, spec *graphSpec, r *h.Rand, idx int) {
@@ -257,8 +346,11 @@ func runFree(a args, spec *graphSpec, r *h.Rand, idx int) {
 	out.Sample("schedfree", cas)
 }
 
-func runBarrier(a args, r *h.Rand, idx int) {
-	k := r.Range(2, 6)
+func runBarrier(a args, r *h.Rand, idx int) { runBarrierK(a, r, idx, r.Range(2, 6), false) }
+
+// runBarrierK: k mutually waiting stages. upBarrier: every stage runs in its own execution context and the
+// contexts' `up` commands wait for each other as well (bringing up one context must not hold back another stage).
+func runBarrierK(a args, r *h.Rand, idx, k int, upBarrier bool) {
 	dir := filepath.Join(a.Work, fmt.Sprintf("barrier.%d", idx))
 	os.MkdirAll(dir, 0o755)
 	defer os.RemoveAll(dir)
@@ -307,9 +399,34 @@ func runBarrier(a args, r *h.Rand, idx int) {
 		out.Count("rejected_by_graph_builder", 1)
 		return
 	}
-	out.Begin(fmt.Sprintf("barrier#%d k=%d diamond=%v", idx, k, diamond))
+	out.Begin(fmt.Sprintf("barrier#%d k=%d diamond=%v up=%v", idx, k, diamond, upBarrier))
 	br := newQuietRunner()
 	namedCtx := r.Chance(40)
+	if upBarrier {
+		namedCtx = false
+		ctxs := map[string]*runner.ExecutionContext{}
+		var ups []string
+		for i := 0; i < k; i++ {
+			ups = append(ups, fmt.Sprintf("[ -e '%s/up.%d' ]", dir, i))
+		}
+		for i := 0; i < k; i++ {
+			up := fmt.Sprintf(": > '%s/up.%d'; n=0; while ! { %s; }; do sleep 0.01; n=$((n+1)); if [ $n -gt 2000 ]; then exit 1; fi; done", dir, i, strings.Join(ups, " && "))
+			ctxs[fmt.Sprintf("cx%d", i)] = runner.NewExecutionContext(&utils.Binary{}, "", variables.NewVariables(), []string{up}, nil, nil, nil)
+		}
+		br.SetContexts(ctxs)
+		i := 0
+		for _, st := range list {
+			if strings.HasPrefix(st.Name, "b") && st.Name != "bottom" {
+				if shared {
+					// one task object cannot name k contexts: give every stage its own copy
+					cp := *st.Task
+					st.Task = &cp
+				}
+				st.Task.Context = fmt.Sprintf("cx%d", i)
+				i++
+			}
+		}
+	}
 	if namedCtx {
 		// all barrier tasks use one named context that has before/after hooks: they still have to overlap
 		br.SetContexts(map[string]*runner.ExecutionContext{"shared-ctx": runner.NewExecutionContext(&utils.Binary{}, "", variables.NewVariables(), []string{"true"}, []string{"true"}, []string{"true"}, []string{"true"})})
@@ -323,7 +440,7 @@ func runBarrier(a args, r *h.Rand, idx int) {
 	sch.VerifSetPause(time.Millisecond)
 	done := make(chan error, 1)
 	go func() { done <- sch.Schedule(g) }()
-	cas := map[string]interface{}{"barrier_stages": k, "diamond": diamond, "stages_share_one_task": shared, "tasks_in_one_named_context_with_hooks": namedCtx}
+	cas := map[string]interface{}{"barrier_stages": k, "diamond": diamond, "stages_share_one_task": shared, "tasks_in_one_named_context_with_hooks": namedCtx, "context_up_commands_wait_for_each_other": upBarrier}
 	select {
 	case err := <-done:
 		out.Count("executions", 1)
@@ -331,7 +448,13 @@ func runBarrier(a args, r *h.Rand, idx int) {
 		if err != nil {
 			out.Viol("C04", "barrier-pipeline-failed", fmt.Sprintf("%d independent stages that wait for each other did not all run at the same time: %v", k, err), cas)
 		}
-		out.Nontrivial("C04", fmt.Sprint("barrier", k, diamond, idx))
+		out.Nontrivial("C04", fmt.Sprint("barrier", k, diamond, idx, upBarrier))
+		if upBarrier {
+			out.Count("barrier_pipelines_with_context_up_barrier", 1)
+		}
+		if k > 32 {
+			out.Count("barrier_pipelines_wider_than_32", 1)
+		}
 	case <-time.After(90 * time.Second):
 		out.Viol("C04", "barrier-pipeline-hung", fmt.Sprintf("pipeline of %d mutually waiting stages did not return in 90 s", k), cas)
 	}
